@@ -5,7 +5,6 @@ package prunner
 
 import (
 	"context"
-	"sync"
 	"testing"
 	"time"
 
@@ -17,38 +16,6 @@ import (
 	"github.com/Flowpack/prunner/taskctl"
 	"github.com/Flowpack/prunner/test"
 )
-
-type gate struct {
-	mx      sync.Mutex
-	release map[string]chan struct{}
-	runs    map[string]int
-}
-
-func newGate() *gate { return &gate{release: map[string]chan struct{}{}, runs: map[string]int{}} }
-func (g *gate) ch(k string) chan struct{} {
-	g.mx.Lock()
-	defer g.mx.Unlock()
-	c, ok := g.release[k]
-	if !ok {
-		c = make(chan struct{})
-		g.release[k] = c
-	}
-	return c
-}
-func (g *gate) runner() func(j *PipelineJob) taskctl.Runner {
-	return func(j *PipelineJob) taskctl.Runner {
-		id := j.ID.String()
-		return &test.MockRunner{OnRun: func(t *task.Task) error {
-			g.mx.Lock()
-			g.runs[id+"/"+t.Name]++
-			g.mx.Unlock()
-			<-g.ch(id + "/" + t.Name)
-			return nil
-		}}
-	}
-}
-func (g *gate) count(k string) int { g.mx.Lock(); defer g.mx.Unlock(); return g.runs[k] }
-
 
 func TestDefectD1_DoubleStartAfterGraphError(t *testing.T) {
 	defs := &definition.PipelinesDef{Pipelines: map[string]definition.PipelineDef{
